@@ -28,7 +28,7 @@ def replay(pid, path):
     try:
         rec = None
         cfg = d.get("cfg")
-        runnable = isinstance(cfg, dict) and not (drv.endswith("drv_func:run_case") and cfg.get("kind") in ("grad",))
+        runnable = isinstance(cfg, dict) and cfg.get("src") != "repo_tests" and not (drv.endswith("drv_func:run_case") and cfg.get("kind") in ("grad",))
         if runnable:
             out = core.run_drivers(drv, [cfg], x64=(x64 and not drv.endswith("drv_datagen:run_case")))[0]
             if "tb" in out:
